@@ -20,6 +20,7 @@ type compiled struct {
 	p *Prog
 	e *eval.Expr
 	f *drive.Fetcher
+	cfg *eval.Config // the caller-side config the program was compiled with
 }
 
 func c01(r *rep.Run) {
